@@ -13,12 +13,13 @@ def cc6 (ver e1 e0 c1 c0 f1 f0 s3 s2 s1 s0 rf wf : Nat) : Bytes :=
 
 def limitLe (v : Variant) (mle : Nat) : Nat := if v.shortApdu then min mle 256 else mle
 def limitLc (v : Variant) (mlc : Nat) : Nat := if v.shortApdu then min mlc 255 else mlc
+def limitSize (v : Variant) (mfs : Nat) : Nat := if v.offsetClamp then min mfs 65536 else mfs
 
 theorem discover_cc4 (v : Variant) (c : Card) (ver e1 e0 c1 c0 f1 f0 s1 s0 rf wf : Nat)
     (hcc : c.cc = cc4 ver e1 e0 c1 c0 f1 f0 s1 s0 rf wf) (hmle : 15 ≤ c.mle)
     (hver : ver / 16 = 1 ∨ ver / 16 = 2 ∨ ver / 16 = 3) :
     discover v c = .ok (some { maxLe := limitLe v (e1 * 256 + e0), maxLc := limitLc v (c1 * 256 + c0),
-                               capacity := ((s1 * 256 + s0 : Nat) : Int) - 2,
+                               capacity := ((limitSize v (s1 * 256 + s0) : Nat) : Int) - 2,
                                readable := decide (rf = 0), writeable := decide (wf = 0),
                                nlenSize := 2, fid := [f1, f0] }) := by
   have r1 : readBinary c c.cc 15 0 2 = .ok [0, 15] := by
@@ -30,14 +31,14 @@ theorem discover_cc4 (v : Variant) (c : Card) (ver e1 e0 c1 c0 f1 f0 s1 s0 rf wf
   have hm : min (((beNat [0, 15] : Nat) : Int) - 2) 15 = 13 := by simp [beNat]; omega
   unfold discover
   simp only [r1, Py.bind_ok, hm, r2]
-  simp [zeros, hver, limitLe, limitLc, beNat]
-  omega
+  simp [zeros, hver, limitLe, limitLc, limitSize, beNat]
+  split <;> omega
 
 theorem discover_cc6 (v : Variant) (c : Card) (ver e1 e0 c1 c0 f1 f0 s3 s2 s1 s0 rf wf : Nat)
     (hcc : c.cc = cc6 ver e1 e0 c1 c0 f1 f0 s3 s2 s1 s0 rf wf) (hmle : 15 ≤ c.mle)
     (hver : ver / 16 = 1 ∨ ver / 16 = 2 ∨ ver / 16 = 3) :
     discover v c = .ok (some { maxLe := limitLe v (e1 * 256 + e0), maxLc := limitLc v (c1 * 256 + c0),
-                               capacity := ((((s3 * 256 + s2) * 256 + s1) * 256 + s0 : Nat) : Int) - 4,
+                               capacity := ((limitSize v (((s3 * 256 + s2) * 256 + s1) * 256 + s0) : Nat) : Int) - 4,
                                readable := decide (rf = 0), writeable := decide (wf = 0),
                                nlenSize := 4, fid := [f1, f0] }) := by
   have r1 : readBinary c c.cc 15 0 2 = .ok [0, 17] := by
@@ -49,17 +50,17 @@ theorem discover_cc6 (v : Variant) (c : Card) (ver e1 e0 c1 c0 f1 f0 s3 s2 s1 s0
   have hm : min (((beNat [0, 17] : Nat) : Int) - 2) 15 = 15 := by simp [beNat]
   unfold discover
   simp only [r1, Py.bind_ok, hm, r2]
-  simp [zeros, hver, limitLe, limitLc, beNat]
-  omega
+  simp [zeros, hver, limitLe, limitLc, limitSize, beNat]
+  split <;> omega
 
 /-- well-formed Type 4 layout, as understood by the reader (`i` = result of `_discover_ndef`) -/
 structure WF (v : Variant) (c : Card) (i : Info) : Prop where
   disc : discover v c = .ok (some i)
   fid : i.fid = c.fid
   lim : Lim c i c.file.length
-  cap : i.capacity = (c.file.length : Int) - i.nlenSize
+  cap : i.capacity = ((min c.file.length 65536 : Nat) : Int) - i.nlenSize
   rw : i.writeable = true
-  old : i.nlenSize + beNat (c.file.take i.nlenSize) ≤ c.file.length
+  old : i.nlenSize + beNat (c.file.take i.nlenSize) ≤ min c.file.length 65536
 
 theorem discover_file (v : Variant) (c : Card) (f : Bytes) : discover v { c with file := f } = discover v c := rfl
 
@@ -72,24 +73,24 @@ theorem see_old (v : Variant) (c : Card) (i : Info) (wf : WF v c i) :
     see v c = .ok (some ⟨i.capacity, i.readable, true,
       sliceN c.file i.nlenSize (i.nlenSize + beNat (c.file.take i.nlenSize))⟩) := by
   unfold see
-  rw [readNdef_spec v c i wf.disc wf.fid wf.lim wf.old]
+  rw [readNdef_spec v c i wf.disc wf.fid wf.lim (by have := wf.old; omega) (by have := wf.old; omega)]
   simp [wf.rw]
 
 theorem setOctets_spec (v : Variant) (c : Card) (i : Info) (data : Bytes) (wf : WF v c i)
     (hlen : (data.length : Int) ≤ i.capacity) (hv : v.nlenLoop = true ∨ i.nlenSize ≤ i.maxLc) :
     setOctets v c data = .ok (some ⟨planWrite v i data, finalFile c.file i.nlenSize data, .ok ()⟩) := by
   unfold setOctets
-  rw [readNdef_spec v c i wf.disc wf.fid wf.lim wf.old]
+  rw [readNdef_spec v c i wf.disc wf.fid wf.lim (by have := wf.old; omega) (by have := wf.old; omega)]
   simp only [Py.bind_ok]
   rw [if_neg (by simp [wf.rw]), if_neg (by omega)]
   have := wf.cap; have := wf.lim.size
-  rw [writeNdef_spec v c i data wf.lim (by omega) hv]
+  rw [writeNdef_spec v c i data wf.lim (by omega) (by omega) hv]
 
 theorem setOctets_oversize (v : Variant) (c : Card) (i : Info) (data : Bytes) (wf : WF v c i)
     (hlen : (data.length : Int) > i.capacity) :
     setOctets v c data = .ok (some ⟨[], c.file, .error .value⟩) := by
   unfold setOctets
-  rw [readNdef_spec v c i wf.disc wf.fid wf.lim wf.old]
+  rw [readNdef_spec v c i wf.disc wf.fid wf.lim (by have := wf.old; omega) (by have := wf.old; omega)]
   simp only [Py.bind_ok]
   rw [if_neg (by simp [wf.rw]), if_pos (by omega)]
 
@@ -104,7 +105,8 @@ theorem see_final (v : Variant) (c : Card) (i : Info) (data : Bytes) (wf : WF v 
     rw [finalFile_nlen _ _ _ hl]; exact beNat_toBE _ _ hnl (by rcases hnl with h | h <;> omega)
   unfold see
   rw [readNdef_spec v { c with file := finalFile c.file i.nlenSize data } i wf.disc wf.fid
-    ⟨wf.lim.nl, wf.lim.le, wf.lim.lc, by simp only [hfl]; exact hsz⟩ (by simp only [hnlen, hfl]; omega)]
+    ⟨wf.lim.nl, wf.lim.le, wf.lim.lc, by simp only [hfl]; exact hsz⟩ (by simp only [hnlen, hfl]; omega)
+    (by simp only [hnlen]; omega)]
   simp only [Py.bind_ok, Option.map, hnlen, finalFile_data _ _ _ hl, wf.rw]
 
 theorem applyU_pres (nl : Nat) : ∀ (cmds : List UCmd) (f : Bytes),
@@ -150,7 +152,7 @@ theorem cut_safe (v : Variant) (c : Card) (i : Info) (data : Bytes) (wf : WF v c
     ∃ r, see v { c with file := applyU c.file ((planWrite v i data).take k) } = .ok r ∧ Outcome sOld.data data r := by
   have hcap := wf.cap; have hsz := wf.lim.size; have hnl := wf.lim.nl; have hlc := wf.lim.lc
   have hl : i.nlenSize + data.length ≤ c.file.length := by omega
-  have hw := writeNdef_spec v c i data wf.lim hl (Or.inr hmlc)
+  have hw := writeNdef_spec v c i data wf.lim hl (by omega) (Or.inr hmlc)
   have hrun : runU c c.file (planWrite v i data) = ⟨planWrite v i data, finalFile c.file i.nlenSize data, .ok ()⟩ := by
     unfold writeNdef at hw
     rw [if_neg (by rcases hnl with h | h <;> rw [h] <;> omega)] at hw
@@ -199,7 +201,8 @@ theorem cut_safe (v : Variant) (c : Card) (i : Info) (data : Bytes) (wf : WF v c
     unfold see
     rw [readNdef_spec v { c with file := F } i wf.disc wf.fid
       ⟨wf.lim.nl, wf.lim.le, wf.lim.lc, by simp only [hpres.2, hf1]; exact hsz⟩
-      (by simp only [hpres.1, htake, beNat_zeros, hpres.2, hf1]; omega)]
+      (by simp only [hpres.1, htake, beNat_zeros, hpres.2, hf1]; omega)
+      (by simp only [hpres.1, htake, beNat_zeros]; omega)]
     simp only [Py.bind_ok, Option.map, hpres.1, htake, beNat_zeros, Nat.add_zero]
     refine ⟨_, rfl, ?_⟩
     simp [Outcome, sliceN]
